@@ -42,3 +42,6 @@ def run(repo, res, tier):
     # token positions index the parser's own copy of the text (self.doc): the lexer does not work on a rewritten one
     from .. import lexrules as _lx8
     _lx8.rule_lex_text(repo, res)
+    # the repair hook edits the module through pop() / append(): both representations of the container stay in step
+    from .. import multidict as _md8
+    _md8.rule_m2(repo, res)
